@@ -122,6 +122,15 @@ def run(tier, rep, ev):
             c.update(block=blk, volume=vol, limit=None, sizes=[30011, 16, 5000] if blk else [300000, 17])
             cases.append(c)
 
+    # volumes much smaller than one block of the codec, incompressible content: every read of packed data is short (it ends at a
+    # volume boundary) and block codecs return nothing for many calls in a row before a block is complete
+    for ch in (["BZip2"], ["LZMA2"], ["Deflate"], ["ZStd"], ["BZip2", "AES"], ["X86", "BZip2"]) if tier == "quick" else [c for c in valid_chains if "PPMd" not in c][::2]:
+        for vol in ((1024,) if tier == "quick" else (1024, 3001)):
+            i += 1
+            c = mk(ch, "encoded", "multivolume", i)
+            c.update(block=None, volume=vol, limit=None, sizes=[400000, 33], texture="random")
+            cases.append(c)
+
     def tmo(c):
         return 180 if not c.get("block") else 90
 
